@@ -506,4 +506,413 @@ def oracle_C09(inp):
     return out
 
 
+# ------------------------------------------------------------------------------------------ worlds
+
+def _roots():
+    from spil.sid.pathops.pathconfig import get_path_config
+    out = {}
+    for name in conf.path_configs.keys():
+        pc = get_path_config(name)
+        root = getattr(pc, "project_server_root_path", None) if name != "local" else None
+        out[name] = str(root or pc.project_root_path)
+    return out
+
+
+def _conf_dir():
+    import spil_sid_conf, os
+    return os.path.dirname(os.path.abspath(spil_sid_conf.__file__)).replace(os.sep, "/")
+
+
+def _real(p):
+    return p.replace("/R/", _conf_dir() + "/")
+
+
+def wipe():
+    import shutil
+    for r in _roots().values():
+        shutil.rmtree(r, ignore_errors=True)
+
+
+def closure(leaves):
+    out = []
+    for s in leaves:
+        parts = s.split("/")
+        for i in range(1, len(parts) + 1):
+            x = "/".join(parts[:i])
+            if x not in out:
+                out.append(x)
+    return out
+
+
+def build(leaves, config=None, data=None):
+    from spil import WriteToPaths
+    w = WriteToPaths(config)
+    for s in leaves:
+        try:
+            w.create(s, (data or {}).get(s))
+        except SpilException:
+            pass
+
+
+def has_path_type(t, config="local"):
+    from spil.sid.pathops.pathconfig import get_path_config
+    pc = get_path_config(config)
+    return Resolver.get(pc.name).get_pattern_for(t) is not None
+
+
+def uses_paths_finder(x):
+    from spil import FindInPaths
+    return isinstance(conf.get_finder_for(x, None), FindInPaths)
+
+
+def unfolded(s):
+    from spil.sid.read.tools import unfold_search
+    x = Sid(s)
+    if x and not x.is_search() and str(x).split("/")[-1] not in conf.extension_alias:
+        return [x]
+    return list(unfold_search(s))
+
+
+def oracle_C11(inp):
+    """all Finders agree; local = server; junk never matters"""
+    from spil import FindInPaths, FindInList, FindInAll
+    from pathlib import Path
+    out = []
+    leaves = inp["leaves"]
+    wipe()
+    build(leaves, "local")
+    build(leaves, "server")
+    G = closure(leaves)
+    before = {}
+    for s in inp["searches"]:
+        try:
+            us = unfolded(s)
+        except SpilException:
+            continue
+        if not us:
+            continue
+        gt_positions = set()
+        for u in us:
+            segs = str(u).split("/")
+            gt_positions.add(segs.index(">") if ">" in segs else -1)
+        if len(gt_positions) > 1 or any(">" in seg and seg != ">" for u in us for seg in str(u).split("/")):
+            continue   # outside the premise of the sorted search
+        try:
+            a = list(FindInPaths("local").find(s, as_sid=False))
+            b = list(FindInPaths("server").find(s, as_sid=False))
+        except BaseException as e:  # noqa
+            out.append("FindInPaths.find(%r) raised %s: %s" % (s, type(e).__name__, e))
+            continue
+        before[s] = set(a)
+        if len(a) != len(set(a)):
+            out.append("FindInPaths(local).find(%r) yields duplicates" % s)
+        if set(a) != set(b):
+            out.append("local and server trees answer differently for %r: %r vs %r" % (s, sorted(a), sorted(b)))
+        if all(has_path_type(u.type) for u in us):
+            types = {u.type for u in us}
+            c = [e for e in FindInList(list(G)).find(s, as_sid=False) if Sid(e).type in types]
+            if set(c) != set(a):
+                out.append("FindInList %r vs FindInPaths %r for %r over %r" % (sorted(c), sorted(a), s, leaves))
+        if all(uses_paths_finder(u) for u in us):
+            try:
+                dd = list(FindInAll().find(s, as_sid=False))
+                if set(dd) != set(a):
+                    out.append("FindInAll %r vs FindInPaths %r for %r" % (sorted(dd), sorted(a), s))
+            except BaseException as e:  # noqa
+                out.append("FindInAll.find(%r) raised %s: %s" % (s, type(e).__name__, e))
+    for j in inp.get("junk", []):
+        p = Path(_real(j["path"]))
+        try:
+            if j["kind"] == "dir":
+                p.mkdir(parents=True, exist_ok=True)
+            else:
+                p.parent.mkdir(parents=True, exist_ok=True)
+                p.touch()
+        except OSError:
+            pass
+    for s, a in before.items():
+        try:
+            a2 = set(FindInPaths("local").find(s, as_sid=False))
+            if a2 != a:
+                out.append("junk %r changed the result of %r: %r -> %r" % (inp.get("junk"), s, sorted(a), sorted(a2)))
+        except BaseException as e:  # noqa
+            out.append("with junk %r, find(%r) raised %s: %s" % (inp.get("junk"), s, type(e).__name__, e))
+    return out
+
+
+def oracle_C12(inp):
+    from spil import FindInPaths, FindInList, FindInAll
+    out = []
+    leaves = inp["leaves"]
+    wipe()
+    build(leaves, None)
+    G = closure(leaves)
+    finders = [("paths", lambda: FindInPaths()), ("list", lambda: FindInList(list(G))), ("all", lambda: FindInAll())]
+    for s in inp["searches"]:
+        for name, mk in finders:
+            try:
+                lst = list(mk().find(s, as_sid=False))
+            except SpilException:
+                continue
+            except BaseException as e:  # noqa
+                if isinstance(e, ValueError) and ">" in s:
+                    continue   # '>' not at one position: outside the statement
+                out.append("%s.find(%r) raised %s: %s" % (name, s, type(e).__name__, e))
+                continue
+            try:
+                ex = mk().exists(s)
+                one = mk().find_one(s, as_sid=False)
+                sids = [str(x) for x in mk().find(s, as_sid=True)]
+            except BaseException as e:  # noqa
+                out.append("%s exists/find_one(%r) raised %s: %s" % (name, s, type(e).__name__, e))
+                continue
+            if ex != bool(lst and lst[0]):
+                out.append("%s.exists(%r) = %r but find yields %r" % (name, s, ex, lst))
+            if one != (lst[0] if lst else None):
+                out.append("%s.find_one(%r) = %r but find yields %r" % (name, s, one, lst))
+            if sids != lst:
+                out.append("%s: as_sid=True yields %r, as_sid=False yields %r for %r" % (name, sids, lst, s))
+    gset = set(G)
+    for p in inp.get("probes", []):
+        x = Sid(p)
+        if not x or not uses_paths_finder(x) or x.path() is None:
+            continue
+        if x.exists() != (p in gset):
+            out.append("Sid(%r).exists() = %r, ground truth %r" % (p, x.exists(), p in gset))
+        kids = [g for g in G if g.rsplit("/", 1)[0] == p and "/" in g and Sid(g).path() is not None]
+        if x.is_leaf():
+            if list(x.children()):
+                out.append("leaf %r has children" % p)
+        elif kids and all(uses_paths_finder(Sid(k)) for k in kids) or (not kids and uses_paths_finder(x / "*")):
+            got = sorted(str(c) for c in x.children())
+            if (x / "*") and got != sorted(kids):
+                out.append("Sid(%r).children() = %r, ground truth %r" % (p, got, sorted(kids)))
+        if "/" in p:
+            par = p.rsplit("/", 1)[0]
+            sibs = sorted(g for g in G if "/" in g and g.rsplit("/", 1)[0] == par and Sid(g).path() is not None)
+            got = sorted(str(c) for c in x.siblings())
+            if got != sibs:
+                out.append("Sid(%r).siblings() = %r, ground truth %r" % (p, got, sibs))
+        if p in gset and len(x) > 1 and x.parent.path() is not None and not x.parent.exists():
+            out.append("%r exists but its parent does not" % p)
+    return out
+
+
+def _sidecar_key(path):
+    import os
+    d, n = os.path.split(str(path))
+    stem = n.rsplit(".", 1)[0] if ("." in n[1:] and not n.endswith(".")) else n
+    return (d, stem)
+
+
+def oracle_C15(inp):
+    """abstract machine: set of existing entities + overlay per sidecar; compare every outcome"""
+    import json as _json
+    from spil import WriteToPaths, GetFromPaths
+    out = []
+    wipe()
+    E = set()
+    data = {}
+    for k, op in enumerate(inp["ops"]):
+        s = op["sid"]
+        x = Sid(s)
+        path = x.path() if x else None
+        attrs = None if op.get("data") is None else {a: _json.loads(b) for a, b in op["data"]}
+        kind = op["do"]
+        try:
+            if kind == "create":
+                r = WriteToPaths().create(s, attrs)
+                got = ("ok", bool(r))
+            elif kind == "update":
+                r = WriteToPaths().update(s, attrs or {})
+                got = ("ok", bool(r))
+            elif kind == "set":
+                r = WriteToPaths().set(s, **(attrs or {}))
+                got = ("ok", bool(r))
+            elif kind == "get_data":
+                got = ("ok", dict(GetFromPaths().get_data(s)))
+            elif kind == "exists":
+                got = ("ok", bool(x.exists()) if x else False)
+            else:
+                continue
+        except SpilException:
+            got = ("spil", None)
+        except BaseException as e:  # noqa
+            got = ("raise", "%s: %s" % (type(e).__name__, e))
+        if kind == "create":
+            if not x or path is None or s in E:
+                exp = ("spil", None)
+            else:
+                exp = ("ok", True)
+                for g in closure([s]):
+                    if Sid(g).path() is not None:
+                        E.add(g)
+                if attrs:
+                    data.setdefault(_sidecar_key(path), {}).update(attrs)
+        elif kind in ("update", "set"):
+            if not x or path is None or s not in E:
+                exp = ("spil", None)
+            else:
+                exp = ("ok", True)
+                data.setdefault(_sidecar_key(path), {}).update(attrs or {})
+        elif kind == "get_data":
+            if not x or path is None:
+                exp = ("ok", {})
+            else:
+                dd = dict(data.get(_sidecar_key(path), {}))
+                dd["sid"] = str(x)
+                exp = ("ok", dd)
+        elif kind == "exists":
+            if not x or not uses_paths_finder(x):
+                continue
+            exp = ("ok", s in E)
+        if got != exp:
+            out.append("step %d %r: expected %r, got %r" % (k, op, exp, got))
+            break
+    return out
+
+
+def oracle_C16(inp):
+    import json as _json
+    from spil import FindInPaths, GetFromPaths, GetFromAll
+    out = []
+    leaves = inp["leaves"]
+    wipe()
+    attrs_of = {s: {a: _json.loads(b) for a, b in kv} for s, kv in inp.get("data", [])}
+    build(leaves, None, attrs_of)
+    encs = {"str": str, "uri": (lambda x: x.uri), "none": (lambda x: None)}
+    for q in inp["queries"]:
+        s, attributes, enc = q["s"], q.get("attributes") or None, encs[q.get("enc", "str")]
+        try:
+            F = list(FindInPaths().find(s, as_sid=True))
+            R = list(GetFromPaths().get(s, attributes=attributes, sid_encode=enc))
+        except SpilException:
+            continue
+        except BaseException as e:  # noqa
+            if isinstance(e, ValueError) and ">" in s:
+                continue
+            out.append("get(%r) raised %s: %s" % (s, type(e).__name__, e))
+            continue
+        if len(F) != len(R):
+            out.append("get(%r) yields %d records for %d found Sids" % (s, len(R), len(F)))
+            continue
+        by_sidecar = {}
+        for leaf in leaves:
+            lp = Sid(leaf).path()
+            if lp is not None and leaf in attrs_of:
+                by_sidecar.setdefault(_sidecar_key(lp), {}).update(attrs_of[leaf])
+        for x, rec in zip(F, R):
+            stored = dict(by_sidecar.get(_sidecar_key(x.path()), {})) if x.path() is not None else {}
+            e = enc(x)
+            if e:
+                stored["sid"] = e
+            exp = {k: stored.get(k) for k in attributes} if attributes else stored
+            if dict(rec) != exp:
+                out.append("record of %r for get(%r, %r): expected %r, got %r" % (x.uri, s, attributes, exp, dict(rec)))
+                break
+        us = unfolded(s)
+        if us and all(conf.get_getter_for(u) is not None for u in us) and ">" not in s:
+            try:
+                A = list(GetFromAll().get(s, attributes=attributes, sid_encode=enc))
+                key = lambda r: _json.dumps(r, sort_keys=True, default=str)
+                if sorted(map(key, A)) != sorted(map(key, R)):
+                    out.append("GetFromAll.get(%r) differs from GetFromPaths.get: %r vs %r" % (s, A, R))
+            except BaseException as e:  # noqa
+                out.append("GetFromAll.get(%r) raised %s: %s" % (s, type(e).__name__, e))
+        elif us and all(conf.get_getter_for(u) is None for u in us):
+            try:
+                A = list(GetFromAll().get(s, attributes=attributes, sid_encode=enc))
+                if A:
+                    out.append("GetFromAll.get(%r) yields records for types configured without Getter" % s)
+            except BaseException as e:  # noqa
+                out.append("GetFromAll.get(%r) raised %s: %s" % (s, type(e).__name__, e))
+        if R:
+            one = GetFromPaths().get_one(s, attributes=attributes, sid_encode=enc)
+            if dict(one) != dict(R[0]):
+                out.append("get_one(%r) is not the first record" % s)
+    merged = {}
+    for leaf in leaves:
+        lp = Sid(leaf).path()
+        if lp is not None and leaf in attrs_of:
+            merged.setdefault(_sidecar_key(lp), {}).update(attrs_of[leaf])
+    for sidstr, kv in inp.get("data", []):
+        x = Sid(sidstr)
+        for a, b in kv:
+            want = merged.get(_sidecar_key(x.path()), {}).get(a)
+            if a != "sid" and x.get_attr(a) != want:
+                out.append("%r.get_attr(%r) = %r, stored %r" % (sidstr, a, x.get_attr(a), want))
+    return out
+
+
+def oracle_C18(inp):
+    """version workflow over a set of existing versions of one task"""
+    from spil import WriteToPaths
+    out = []
+    wipe()
+    task = inp["task"]              # e.g. hamlet/a/char/x/model
+    tail = inp.get("tail", "")      # e.g. "/w/ma" or "" : what follows the version
+    versions = inp["versions"]
+    def vs(n):
+        return "v%03d" % n
+    for n in versions:
+        build([task + "/" + vs(n) + tail])
+    existing = sorted(set(versions))
+    last = max(existing) if existing else None
+    probes = [task] if not tail else []
+    probes += [task + "/" + vs(n) + tail for n in (existing[:2] + [5, 998, 999])]
+    probes += [task + "/*" + tail, task + "/>" + tail]
+    for p in probes:
+        x = Sid(p)
+        if not x:
+            continue
+        try:
+            gl, gn, gw = x.get_last("version"), x.get_next("version"), x.get_new("version")
+        except BaseException as e:  # noqa
+            out.append("%r: version call raised %s: %s" % (p, type(e).__name__, e))
+            continue
+        cur = x.get("version")
+        exp_last = (task + "/" + vs(last) + tail) if last is not None else ""
+        if str(gl) != exp_last:
+            out.append("%r.get_last('version') = %r, expected %r (existing %r)" % (p, str(gl), exp_last, existing))
+        if cur in ("*", ">"):
+            n = (last or 0) + 1
+        elif cur:
+            n = int(cur[1:]) + 1
+        else:
+            n = 1
+        exp_next = (task + "/" + vs(n) + tail) if n <= 999 else ""
+        if cur is None and tail == "":
+            exp_next = task + "/" + vs(1)
+        if str(gn) != exp_next:
+            out.append("%r.get_next('version') = %r, expected %r" % (p, str(gn), exp_next))
+        n = (last or 0) + 1
+        exp_new = (task + "/" + vs(n) + tail) if n <= 999 else ""
+        if last is None and cur not in (None, "*", ">"):
+            exp_new = str(gw)      # nothing exists: "successor of the last existing version" is undefined
+        if str(gw) != exp_new:
+            out.append("%r.get_new('version') = %r, expected %r" % (p, str(gw), exp_new))
+        if gw and gw.exists():
+            out.append("%r.get_new('version') = %r already exists" % (p, str(gw)))
+        for y in (gl, gn, gw):
+            if y:
+                fx, fy = dict(x.fields), dict(y.fields)
+                fx.pop("version", None); fy.pop("version", None)
+                if fx != fy or (y.type != x.type and cur):
+                    out.append("%r: version call changed other fields / type: %r" % (p, y.uri))
+    # publishing get_new repeatedly
+    x = Sid(task + "/*" + tail)
+    seen = []
+    for _ in range(inp.get("publish", 0)):
+        nw = x.get_new("version")
+        if not nw:
+            break
+        if seen and not (nw.get("version") > seen[-1]):
+            out.append("published versions not strictly increasing: %r then %r" % (seen[-1], nw.get("version")))
+        if nw.get("version") in seen or int(nw.get("version")[1:]) in versions:
+            out.append("version %r reused" % nw.get("version"))
+        seen.append(nw.get("version"))
+        WriteToPaths().create(nw)
+    return out
+
+
 ORACLES = {name[7:]: fn for name, fn in list(globals().items()) if name.startswith("oracle_")}
